@@ -5,7 +5,7 @@ from checks import lach_common as lc
 def run(c):
     ex = lc.run_exhaustive(c, c.pick(["x11_7"], ["x11_8_full", "x21_8_full", "x211_8"]), "reference")
     c.guard("model_dags_with_blocks", ex["total"]["dags_with_blocks"])
-    cor = lc.run_exhaustive(c, c.pick(["corpus:variants"], ["corpus:variants", "corpus:ties", "corpus:frames", "corpus:forkless", "corpus:structural"]), "reference", orders=4)
+    cor = lc.run_exhaustive(c, c.pick(["corpus:variants", "corpus:frames"], ["corpus:variants", "corpus:ties", "corpus:frames", "corpus:forkless", "corpus:structural"]), "reference", orders=4)
     c.guard("corpus_spec_ties", cor["total"].get("spec_ties", 0))
     # code-shaped model of abft/election (incremental votes, reset + re-vote after each decision) against the definition
     for cfg in c.pick(["e31f_6"], ["e11_8", "e31f_6", "e211_7"]):
